@@ -9,6 +9,10 @@ from rules import compile_roles as cr
 from rules.C07 import _key_is
 
 EXPLANATION = (
+    "Typestate analysis of compile() (rule C20.T1): the statements of compile() are interpreted over an abstract "
+    "state that tracks one arbitrary module through every local map, with every component call returning or raising "
+    "any package error class, every option setting and every iteration order; invariants are evaluated at the "
+    "component calls and at every return (see rules/compile_ts.py INV). "
     "Dataflow and plumbing rules on the two scripts: (mibdump) constant propagation of every sys.exit argument - the "
     "final exit code starts at 0 and is overwritten by a non-zero code when any status is 'missing' or 'failed', "
     "argument/option validation exits with EX_USAGE = 64, a PySmiError exits non-zero; the status words used by the "
@@ -23,7 +27,7 @@ ASSUMPTIONS = ["directory contents after a run, __pycache__ side effects and the
                "the code generator forgets the previous module's revision (C12.R2), which mibcopy's shared "
                "generator relies on"]
 TECHNIQUE = 'constant propagation of exit codes, option-table/handler agreement, keyword plumbing, AST rules on the ' \
-            'newest-wins loop'
+            'newest-wins loop; typestate abstract interpretation of compile() (path-sensitive dataflow over a finite per-module domain, rules/compile_ts.py)'
 
 MIBDUMP = 'scripts/mibdump.py'
 MIBCOPY = 'scripts/mibcopy.py'
@@ -541,4 +545,12 @@ def r9_wellformedness(chk):
 
 
 
-RULES = [r1_exit_codes, r2_report, r3_options, r4_mibcopy, r5_statuses_backed_by_writes, r6_format_wiring, r7_argument_agreement, r8_failed_leaves_no_file, r9_wellformedness]
+
+def t1_typestate(chk):
+    """typestate analysis of compile() (rules/compile_ts.py): end-to-end bookkeeping invariants for an arbitrary
+    module over every outcome of every component call"""
+    from rules import compile_ts
+    compile_ts.ts_rule(chk, 'C20.T1', ['status-effect', 'abort', 'nowrite-switch'])
+
+
+RULES = [r1_exit_codes, r2_report, r3_options, r4_mibcopy, r5_statuses_backed_by_writes, r6_format_wiring, r7_argument_agreement, r8_failed_leaves_no_file, r9_wellformedness, t1_typestate]
